@@ -18,7 +18,7 @@ func init() {
 	register("C10", c10Pending, c10Dispose, c10Slot, c10Clean, c10Deadline, c10Retry, c10Lock,
 		// a streamed response hands its connection back to the pool when the body stream says it is
 		// fully consumed: the drain accounting is part of "reused only after a clean exchange"
-		c14Drain, c14EOF, c10Budget)
+		c14Drain, c14EOF, c10Budget, c10ChPool)
 }
 
 const pkgClient = Mod + "/pkg/protocol/client"
